@@ -10,7 +10,7 @@ Record c15_case := {
   o_gripper : outcome; o_store : outcome;
   o_writes : list string;          (* write calls that were NOT refused *)
   o_failed : bool;
-  c_extra : bool }.                (* the program has a null-producing move: compared with the embedded store as exact multisets *)
+  c_extra : bool }.                (* the program has a null-producing move (a tag for the evidence; judged like every other program) *)
 
 Definition dup_edge_ids (m : mapping) : bool :=
   let ids := map ed_id (ge (materialise m)) in
@@ -26,10 +26,7 @@ Definition same_rows (a b : outcome) (p : list stmt) : bool :=
   end.
 Definition spec_ok (c : c15_case) : bool :=
   negb (o_failed c) && match o_writes c with [] => true | _ => false end
-  && (dup_edge_ids (c_mapping c) ||
-      (if c_extra c
-       then match o_gripper c, o_store c with Rejected, Rejected => true | Rows x, Rows y => multiset_eqb x y | _, _ => false end
-       else same_rows (o_gripper c) (o_store c) (c_prog c))).
+  && (dup_edge_ids (c_mapping c) || same_rows (o_gripper c) (o_store c) (c_prog c)).
 
 Definition model_case (c : c15_case) : c01_case := {| cgraph := materialise (c_mapping c); cprog := c_prog c; cobs := o_gripper c |}.
 Definition agrees15 (c : c15_case) : bool := negb (o_failed c) && agrees (model_case c).
